@@ -267,7 +267,19 @@ func (run *lnRun) execute() {
 	ls.launchLanceroReader()
 	go func() {
 		<-card.done
-		time.Sleep(120 * time.Millisecond) // two more ticks so that the tail is consumed
+		// let the reader consume the tail: wait until the release pointer has stopped moving for three ticks (bounded)
+		last, still := -1, 0
+		for i := 0; i < 100 && still < 3; i++ {
+			time.Sleep(60 * time.Millisecond)
+			card.mu.Lock()
+			r := card.rel
+			card.mu.Unlock()
+			if r == last {
+				still++
+			} else {
+				still, last = 0, r
+			}
+		}
 		close(ls.abortSelf)
 	}()
 	for {
